@@ -165,6 +165,23 @@ def run_one(check, tier, seed=None, record=None):
     except Abandon as e:
         res = Result()
         res.abandoned = str(e) or 'other-property'
+    except Exception as e:
+        # An exception that escapes from *library* code while a check drives it through legitimate API calls
+        # (the innermost frame is inside the sismic tree, and the check did not anticipate it) is an outcome
+        # of the run - the library crashed where the property promises behaviour.  Anything raised by harness
+        # code itself stays a harness error.
+        tb = e.__traceback__
+        last = None
+        while tb is not None:
+            last = tb
+            tb = tb.tb_next
+        fn = last.tb_frame.f_code.co_filename if last is not None else ''
+        lib = os.path.join(os.path.abspath(REPO), 'sismic') + os.sep
+        if not os.path.abspath(fn).startswith(lib):
+            raise
+        res = Result()
+        res.fail('library-exception', '%s raised %s: %s (at %s:%d in %s) while the check was exercising it' % (
+            'sismic', type(e).__name__, str(e)[:100], fn[len(lib):], last.tb_lineno, last.tb_frame.f_code.co_name))
     return res, ch.used()
 
 
